@@ -29,6 +29,8 @@ def run(c):
     r6_reverse_form(c)
     r7_no_silent_deletion(c)
     r8_logic_pairing(c)
+    from rules import c03
+    c03.r7(c, rid="C01.R9")
 
 
 # --------------------------------------------------------------------------- R1
